@@ -140,8 +140,12 @@ class BaseSQLURLTable(BaseURLTable):
                 url for url, url_properties, url_data in new_urls
                 if not url_properties or not url_properties.level
             )
+            # Every added URL is parsed, as before: a URL that cannot be
+            # parsed raises ValueError and nothing of the batch is stored.
             hostnames = [
-                URLInfo.parse(url).hostname for url in added_urls
+                hostname for url, hostname in [
+                    (url, URLInfo.parse(url).hostname) for url in added_urls
+                ]
                 if url in top_urls
             ]
 
